@@ -392,36 +392,31 @@ func runC08(w *World, c *Check) {
 		// a key-length guard: len(key) == <size term> pass; the size term must evaluate, per etype of the family, to GetKeyByteSize
 		var sizeTerms []string
 		okGuard := false
-		for _, cd := range fa.Conds {
-			if cd.Kind != "eq" {
-				continue
+		exits := fa.SuccessExits(BoolErrSuccess(-1, fn.Signature.Results().Len()-1))
+		plain := EqPass(`len\(key\)`, `crypto/etype\.EType\.GetKeyByteSize\(e\)`)
+		special := EqPass(`len\(key\)`, `φ\(32\|crypto/etype\.EType\.GetKeyByteSize\(e\)\)`)
+		if pass, all := fa.MatchGuardSet([]GuardPat{plain}, nil); len(pass) > 0 {
+			sizeTerms = append(sizeTerms, "GetKeyByteSize(e)")
+			okGuard = fa.PathAvoiding(all, exits) == nil
+		} else if pass, all := fa.MatchGuardSet([]GuardPat{special}, nil); len(pass) > 0 {
+			sizeTerms = append(sizeTerms, "φ(32|GetKeyByteSize(e))")
+			// the RFC 8009 special case: 32 must be selected for etype 20 only, and be what the table says
+			nsel := 0
+			for _, a := range fa.withNewHelpers() {
+				nsel += len(a.MatchGuard(EqPass("20", `crypto/etype\.EType\.GetETypeID\(e\)`)))
 			}
-			var other string
-			if fa.M(`len\(key\)`, cd.L) {
-				other = cd.R
-			} else if fa.M(`len\(key\)`, cd.R) {
-				other = cd.L
-			} else {
-				continue
-			}
-			sizeTerms = append(sizeTerms, other)
-			// accepted size terms: GetKeyByteSize(e), or φ(32|GetKeyByteSize(e)) where 32 is selected for etype 20 only
-			if fa.M(`crypto/etype\.EType\.GetKeyByteSize\(e\)`, other) {
-				okGuard = true
-			} else if fa.M(`φ\(32\|crypto/etype\.EType\.GetKeyByteSize\(e\)\)`, other) {
-				// the RFC 8009 special case: evaluate instead of assuming
-				sel := fa.MatchGuard(EqPass("20", `crypto/etype\.EType\.GetETypeID\(e\)`))
-				ref20 := ""
-				for _, r := range etypeRefs {
-					if r.ID == 20 {
-						ref20 = r.Cells["GetKeyByteSize"]
-					}
+			ref20 := ""
+			for _, r := range etypeRefs {
+				if r.ID == 20 {
+					ref20 = r.Cells["GetKeyByteSize"]
 				}
-				okGuard = len(sel) > 0 && ref20 == "32"
 			}
-			p := fa.PathAvoiding([]Edge{{cd.If.Block(), cd.HoldsSucc}}, fa.SuccessExits(BoolErrSuccess(-1, fn.Signature.Results().Len()-1)))
-			if p != nil {
-				okGuard = false
+			okGuard = nsel > 0 && ref20 == "32" && fa.PathAvoiding(all, exits) == nil
+		} else {
+			for _, cd := range fa.Conds {
+				if cd.Kind == "eq" && (fa.M(`len\(key\)`, cd.L) || fa.M(`len\(key\)`, cd.R)) {
+					sizeTerms = append(sizeTerms, cd.L+" == "+cd.R)
+				}
 			}
 		}
 		c.Decide(okGuard, "C08.generated", fk, "accepts-GetKeyByteSize", w.Pos(fn.Pos()), "the cipher accepts exactly the key size the generators produce (GetKeyByteSize() of the etype)", fmt.Sprintf("key length compared with %v", sizeTerms))
